@@ -138,7 +138,9 @@ int main(int argc, char **argv) {
 					const J *ja = j.get("args");
 					for(size_t i = 0; ja && i < ja->size(); i++) { Arg g; g.t = (*ja)[i][0].s; g.s = (*ja)[i][1].s; g.v = strtoll(g.s.c_str(), nullptr, 10); g.u = strtoull(g.s.c_str(), nullptr, 10); args.push_back(g); }
 					ByteSink sink; int ok = 0; std::vector<long long> ref;
-					dispatch(args, 0, [&](auto... xs) { ok = frg_vformat(sink, fmt.c_str(), xs...); });
+					sink.hard_limit = 1 << 20;      // no defined directive of the generated space prints a megabyte: unwind instead of running for hours
+					try { dispatch(args, 0, [&](auto... xs) { ok = frg_vformat(sink, fmt.c_str(), xs...); }); }
+					catch(OutputLimit &) { ok = 0; }
 					dispatch(args, 0, [&](auto... xs) { ref = glibc_vformat(fmt.c_str(), xs...); });
 					Ev ev("Case");
 					ev.str("fmt", fmt).raw("d", j.get("d") ? [&] { // echo the directive record verbatim
